@@ -19,14 +19,39 @@
    Model agreement (the tie): SOME candidate site is a member of the escape set the analysis computes for that entry
    point and mode (the deepest such site is "the" site), it has the observed class, and the class reads as the
    observation.
+   c_tuplecyc the input holds a YAML alias cycle that passes through a tuple (!!pairs / !!omap) and through no cycle of
+              mappings and lists alone: the RecursionError sites of finding 30 count as that finding only then.
+   c_heap    Some (heap, root, rejected): the case is not a parse call but ONE CALL OF yaml_load on a text PyYAML can load
+              (the value as a heap: kind 0 dict / 1 list / 2 tuple / 3 other, item ids) and whether yaml_load refused it with
+              YAMLError.  Model: Model/C03Cycle.has_cycle with the regenerated flag cyc_tuples reproduces accept/refuse; guard:
+              cyc_guard (tuples are descended, or the heap holds none) — the hypothesis of C03_cycle_check_sound; spec:
+              Spec/C03CycleSpec.cycle_check_ok (an accepted value is walkable).
    Guard: finding_class of that site (the same function as in the theorem C03_single_channel).  Termination is not in
    the theorem: a call that hangs is outside every guard unless the input holds a self-referential alias (finding 2:
    the same inputs that end in RecursionError elsewhere) or is nested more than 150 levels deep (finding 18: the key
    expansion of _apply_actions is quadratic in the depth, so such inputs end in RecursionError or exceed the time limit).  Spec: channel_ok. *)
-From JV Require Import Lib.Base Model.C03ExnFlow Spec.C03ChannelSpec Gen.C03ExnIR Model.C03Instance.
+From JV Require Import Lib.Base Model.C03ExnFlow Spec.C03ChannelSpec Gen.C03ExnIR Model.C03Instance
+                       Model.C03Cycle Spec.C03CycleSpec Gen.C03Cycle.
 Open Scope N_scope.
 
-Record case := { c_x : bool; c_entry : N; c_obs : observation; c_cls : option N; c_sites : list N; c_selfref : bool; c_deep : bool; c_asked : bool; c_nonmap : bool; c_subcmd : bool }.
+Record case := { c_x : bool; c_entry : N; c_obs : observation; c_cls : option N; c_sites : list N; c_selfref : bool; c_deep : bool; c_asked : bool; c_nonmap : bool; c_subcmd : bool;
+                 c_tuplecyc : bool; c_heap : option (list (N * list N) * N * bool) }.
+
+Definition kind_of_N (k : N) : kind :=
+  if N.eqb k 0 then KDict else if N.eqb k 1 then KList else if N.eqb k 2 then KTuple else KScalar.
+Definition heap_of (l : list (N * list N)) : heap := map (fun p => (kind_of_N (fst p), map N.to_nat (snd p))) l.
+
+(* the guard of C03_cycle_check_sound *)
+Definition cyc_guard (h : heap) : bool := cyc_tuples || tuple_free h.
+
+Definition judge_heap (l : list (N * list N)) (root : N) (rejected : bool) : verdict :=
+  let h := heap_of l in
+  {| v_model := match has_cycle cyc_tuples (S (S (length h))) h [] (N.to_nat root) with
+                | Some b => Bool.eqb b rejected
+                | None => false
+                end;
+     v_class := if cyc_guard h then 0 else 30;
+     v_spec := cycle_check_ok h (N.to_nat root) rejected |}.
 
 Definition norm_obs (o : observation) : observation :=
   match o with
@@ -45,7 +70,13 @@ Definition obs_eqb (a b : observation) : bool :=
 
 Definition is_entry (e : N) : bool := existsb (N.eqb e) ir_entries.
 
-Definition judge1 (c : case) : verdict :=
+Definition refine_class (c : case) (k : N) : N :=
+  if N.eqb k 18 && negb (c_deep c) then 0
+  else if N.eqb k 26 && negb (c_nonmap c) then 0
+  else if N.eqb k 20 && negb (c_subcmd c) then 0
+  else if N.eqb k 30 && negb (c_tuplecyc c) then 0 else k.
+
+Definition judge_call (c : case) : verdict :=
   let x := c_x c in
   match c_cls c with
   | None =>
@@ -56,20 +87,30 @@ Definition judge1 (c : case) : verdict :=
                     | Hung => true
                     | _ => false
                     end;
-         v_class := match c_obs c with Hung => if c_selfref c then 2 else if c_deep c then 18 else 0 | _ => 0 end;
+         v_class := match c_obs c with Hung => if c_selfref c then 2 else if c_tuplecyc c then 30 else if c_deep c then 18 else 0 | _ => 0 end;
          v_spec := channel_ok_asked x (c_asked c) (c_obs c) |}
   | Some cl =>
-      match find (fun i => mem i (escape_set x (c_entry c)) && N.eqb (site_class ir_prog i) cl) (c_sites c) with
-      | Some i =>
+      (* candidate sites that escape this entry point in this mode and have the observed class; several implicit sites may share
+         function and class (told apart by what the input must hold): the observation counts as a listed finding when SOME
+         candidate is a finding site whose applicability condition the input meets *)
+      match filter (fun i => mem i (escape_set x (c_entry c)) && N.eqb (site_class ir_prog i) cl) (c_sites c) with
+      | i0 :: rest =>
+          let cands := i0 :: rest in
           {| v_model := is_entry (c_entry c) && obs_eqb (obs_of_class cl) (norm_obs (c_obs c));
-             v_class := (let k := finding_class x i in
-                         if N.eqb k 18 && negb (c_deep c) then 0
-                         else if N.eqb k 26 && negb (c_nonmap c) then 0
-                         else if N.eqb k 20 && negb (c_subcmd c) then 0 else k);
+             v_class := match find (fun k => negb (N.eqb k 0)) (map (fun i => refine_class c (finding_class x i)) cands) with
+                        | Some k => k
+                        | None => 0
+                        end;
              v_spec := channel_ok_asked x (c_asked c) (c_obs c) |}
-      | None =>
+      | [] =>
           {| v_model := false; v_class := 0; v_spec := channel_ok_asked x (c_asked c) (c_obs c) |}
       end
+  end.
+
+Definition judge1 (c : case) : verdict :=
+  match c_heap c with
+  | Some (l, root, rejected) => judge_heap l root rejected
+  | None => judge_call c
   end.
 
 Definition judge (cs : list case) := judge_all judge1 cs.
